@@ -197,6 +197,24 @@ pub fn run_c10(cfg: &RunCfg, trace: bool) -> RunOut {
             } else if faulted_step && !got.session_ok() {
                 // opened, then a write failed: a partially written file exists (legal); end the run
                 return true;
+            } else if faulted_step && matches!(op, Op::RemoveDir(_) | Op::RemoveFile(_)) && matches!(want, Want::Err(_)) && got.is_ok() {
+                // a removal the contract refuses (non-empty directory) reported success while an
+                // underlying call failed: C20's finding - and for C10 the entry counts as removed,
+                // with everything that was inside it
+                let c = op.paths().first().and_then(|p| canon(&p.s).ok()).unwrap_or_default();
+                if !c.is_empty() && before.m[0].exists(&c) {
+                    let mut m1 = before.m[0].clone();
+                    let doomed: Vec<String> = m1.t.keys().filter(|k| **k == c || is_under(k, &c)).cloned().collect();
+                    for k in doomed {
+                        m1.t.remove(&k);
+                    }
+                    tr.transition(&before.m[0], &m1, op, &mut cx.out);
+                    cx.out.count("probe.c10.refused_removal_succeeded_under_fault");
+                    if let Some((k, d)) = tr.check(&snaps[0], &m1, i, op) {
+                        cx.violate(i, format!("C10|{}|{}|removal-under-failure", shape, k), d);
+                    }
+                }
+                return true;
             } else if judge(want, got).is_some() {
                 if let Some((k, d)) = accepted_tombstone(&tr, op, want, got) {
                     cx.violate(i, format!("C10|{}|{}", shape, k), format!("step {} {}", i, d));
